@@ -496,26 +496,21 @@ def c_history(case, ctx):
             if op["op"] == "sethome":
                 X = O.pose_from_taa(np.asarray(op["rel"], dtype=float))
                 T_now = as_T(sut(su.arm.getEEPos), "getEEPos before setArbitraryHome")
-                N = T_now @ X
-                if min(math.pi - O.angle(T_now[:3, :3]), math.pi - O.angle(N[:3, :3]),
-                       math.pi - O.angle((m.M @ X)[:3, :3])) < 0.05:
-                    # tool frames at (or next to) a half turn (the UR arms' tools are exact half turns): what a tool
-                    # change does there is C05's subject and runs into the open C01 finding; not done here
-                    ctx.label("history: tool change skipped (tool frame next to a half turn)")
-                    continue
-                sut(su.arm.setArbitraryHome, tm(np.ascontiguousarray(N)))
-                m.M = m.M @ X
+                sut(su.arm.setArbitraryHome, tm(np.ascontiguousarray(T_now @ X)))
                 ctx.label("history: tool changed")
             elif op["op"] == "restore":
                 sut(su.arm.restoreOriginalEE)
-                m.M = m.M0.copy()
                 ctx.label("history: original tool restored")
             else:
                 base = np.asarray(op["base"], dtype=float)
                 sut(su.arm.move, tm(base.copy()))
                 m.B = O.pose_from_taa(base)
-                m.M = m.M0.copy()          # the library re-initialises with the original tool (C05 admits both)
                 ctx.label("history: base moved")
+            # What a tool change / move leaves behind is C05's subject (and, for tools next to a half turn - UR, Puma -
+            # runs into the open C01 finding): the model takes the home tool pose the arm now HOLDS, exactly as
+            # vf.arms.build_arm does for URDF arms at construction.  The solves that follow are audited against FK
+            # with that tool, so a solver working from a stale copy of it is still seen.
+            m.M = O.inv(m.B) @ np.array(su.arm._end_effector_home.gTM(), dtype=float)
             su.scale = A.model_scale(m)        # (what a tool change / move leaves behind is C05's subject)
         else:
             run_request(su, op, "step %d %s" % (k, op["solver"]))
